@@ -61,6 +61,10 @@ Reset == /\ Is("reset")
 Core(t) == [b |-> t.b, e |-> t.e, lt |-> t.lt, id |-> t.id, l |-> t.l, r |-> t.r, c |-> t.c, tot |-> t.tot]
 CoreSeq(toks) == [i \in 1..Len(toks) |-> Core(toks[i])]
 
+RangesSane(s, toks) == /\ \A i \in 1..Len(toks) : 0 <= toks[i].b /\ toks[i].b < toks[i].e /\ toks[i].e <= Len(s)
+                       /\ \A i \in 1..Len(toks) : 0 <= toks[i].l /\ toks[i].l < dict.nl /\ 0 <= toks[i].r /\ toks[i].r < dict.nr
+                       /\ \A i \in 1..(Len(toks) - 1) : toks[i].e <= toks[i + 1].b
+
 Tok == /\ Is("tok")
        /\ LET s == ws[E.w].sent
               T == STab(dict, s, DevAstralNul)
@@ -68,7 +72,10 @@ Tok == /\ Is("tok")
           IN
           /\ AT("C01", "partition+fields", /\ PartitionOK(dict, opts, s, T, toks)
                       /\ \A i \in 1..Len(E.toks) : TokenFieldsOK(dict, s, E.toks[i]))
-          /\ (Len(s) > 0 =>
+          (* the remaining clauses index the sentence by the reported positions: they are evaluated
+             only for reports whose ranges lie inside the sentence in ascending order (anything
+             else is already a violation of C01's clause above) *)
+          /\ (Len(s) > 0 /\ RangesSane(s, toks) =>
                 /\ AT("C03", "tokens-are-candidates", ChainOK(dict, opts, s, T, toks, 1, 0, 0))
                 /\ AT("C02", "prefix-cost+optimal", /\ PrefixCostOK(dict, toks)
                             /\ ChainTotal(dict, toks) = OptCost(dict, opts, s, T))
